@@ -34,7 +34,9 @@ OUTSIDE = ["lists longer than the bound", "the md5 bytes themselves"]
 
 TEMPLATES_Q = ["v0", "[v0]", "[v0, v1]", "[v0, v1, v2]", "[v0, v1, v2, v3]", "(v0, v1)", "(v0, v1, v2)", "(v0,)",
                "linspace(v0, v1, 1)", "linspace(v0, v1, 2)", "linspace(v0, v1, 3)", "linspace(v0, v1, 5)", "linspace(v0, v1)",
-               "range(v0, v1, v2)", "arange(v0, v1, v2)", "range(v0, v1)", "range(v0)"]
+               "range(v0, v1, v2)", "arange(v0, v1, v2)", "range(v0, v1)", "range(v0)",
+               # the same forms as users write them: surrounding and inner whitespace
+               " linspace(v0, v1, 3)", "linspace(v0, v1, 3) ", "linspace (v0, v1, 3)", "range( v0 , v1 , v2 )\t", "arange(v0, v1, v2)\n", " [v0, v1] ", "( v0, v1 ) "]
 TEMPLATES_T = TEMPLATES_Q + ["[v0, v1, v2, v3, v4]", "(v0, v1, v2, v3)", "linspace(v0, v1, 4)", "linspace(v0, v1, 6)", "np.linspace(v0, v1, 3)", "np.arange(v0, v1, v2)"]
 MAXLEN = 6
 
